@@ -390,6 +390,8 @@ struct TreeSim {
 
 struct Triple { int res = 0, rc = -1, ec = -1; bool operator==(const Triple &o) const { return res == o.res && rc == o.rc && ec == o.ec; } };
 
+static uint64_t str_kind(const std::string &k) { uint64_t h = 1469598103934665603ULL; for (char c : k) h = (h ^ (unsigned char)c) * 1099511628211ULL; return h; }
+
 struct CtxSim {
 	const run::Plan &plan;
 	KSI_CTX *ctx = nullptr;
@@ -638,7 +640,7 @@ struct CtxSim {
 			KSI_Signature_free(live[idx].sig);
 			live.erase(live.begin() + (long)idx);
 		}
-		states.push_back(mix(live.size(), K.violations.size()));
+		states.push_back(mix(live.size(), str_kind(op.k)));
 	}
 
 	run::RunResult run(bool trace) {
@@ -755,6 +757,7 @@ struct HistoryEngine : run::Engine {
 		return s.run(trace);
 	}
 	std::map<std::string, int64_t> neutral_cfg() const override { return {{"pdu_ver", 2}, {"aggr_http", 0}, {"ext_http", 0}, {"loglevel", 0}, {"epoch_ms", 0}, {"alg", 1}}; }
+	std::string state_measure() const override { return "C11: (operation kind, number of live signatures) after every op; C16: (accepted leaves, closed) after every op"; }
 	std::string nontrivial_rule() const override { return "C11: a history is non-trivial when it contains a verification with a trust-anchor policy or a supplied document hash, an extend or a faulted call; C16: when a leaf was refused, an allocation failed inside an add, or a reset happened; distinct = distinct event-log hash"; }
 };
 
